@@ -1221,7 +1221,7 @@ def run(ctx):
         "may be returned while at most the white space and the newline behind the trailing id of its LAST atom line "
         "are missing — its slack —, never a byte of a value). Lean: exactness for EVERY cut list and any slack "
         "(lmp_exact_any_slack: poll by poll the per-frame-slack specification lmpStagesS; "
-        "lmp_safety_complete_any_slack); the older one-byte-lag specification lmpStages (lmp_exact, "
+        "lmp_safety_complete_any_slack, lmp_no_frame_withheld_any_slack); the older one-byte-lag specification lmpStages (lmp_exact, "
         "*_trailing_partial) is compared too where its cut guard tbFree holds. The position specification "
         "lmpStagesPosS (current_position after every poll, any slack) is judged by the tie on every schedule; its "
         "Lean theorem exists for slack 1 / under tbFree only (rp_lmp_exact_pos[_trailing_partial]). The old "
